@@ -18,10 +18,24 @@
         rejected, valid continuation) on a real replica whose OBSERVED state is [s] and in-memory ids [ids]; ok = the
         call returned nil; s_after / ids_after / stored_after observed afterwards.  Model: [add_raws] (skips duplicates,
         stops at the first other error, a rejected record leaves no trace).  Spec: [spec_C03_batch] below.
+     COne need_acc v me one s ids w res one_after s_after ids_after stored_after
+        one AddRawRecord on a replica of a ONE-TO-ONE space ACL (root with OneToOneInfo); one / one_after = the OBSERVED
+        AclState.IsOneToOne() before / after.  Model: [oadd_raw] of Model/AclOneToOne.v with the repaired Copy().  Spec: while
+        the replica is one-to-one nothing is accepted and nothing changes ([spec_one_add]); a replica that is not
+        one-to-one stays so and obeys [spec_C03_add].
+     COneBatch need_acc v me one s ids ws ok one_after s_after ids_after stored_after
+        one AddRawRecords call on such a replica (also the catch-up from what another replica's RecordsAfter served).
+        Model: [oadd_raws]; spec: [spec_one_batch] / [spec_C03_batch].
+     COneBuild need_acc v me owner w1 w2 root ws live ok one_r s_r ids_r
+        BuildAclListWithIdentity over a storage holding the one-to-one root (rid [root], shared owner key [owner], writers
+        [w1] [w2]) and the raw records [ws]; live = Some (IsOneToOne, state, in-memory ids) of the LIVE replica whose
+        storage this is (restart), None for a first build; ok = the build succeeded, one_r / s_r / ids_r observed on
+        the rebuilt list.  Model: [obuild] from [init_one]; spec: [spec_rebuild] (the rebuilt list exists and equals the
+        live one), for a first build: it exists and is one-to-one.
    check_all: code 1 = model differs from the observation, code 2 = spec_C03 false on the observation. *)
 From Coq Require Import List NArith Bool.
 Import ListNotations.
-From AnySync Require Export Model.Acl.
+From AnySync Require Export Model.Acl Model.AclOneToOne.
 Open Scope N_scope.
 
 Inductive case :=
@@ -30,7 +44,13 @@ Inductive case :=
 | CSame (route : N) (with_keys : bool) (s_ref : state) (head_ref : rid) (s_obs : state) (head_obs : rid)
 | CFold (v : bool) (me owner : acct) (root : rid) (opts : option (option bool)) (ws : list raw) (s_obs : state)
 | CBatch (need_acc v : bool) (me : acct) (s : state) (ids : list rid) (ws : list raw) (ok : bool)
-         (s_after : state) (ids_after stored_after : list rid).
+         (s_after : state) (ids_after stored_after : list rid)
+| COne (need_acc v : bool) (me : acct) (one : bool) (s : state) (ids : list rid) (w : raw) (res : outcome)
+       (one_after : bool) (s_after : state) (ids_after stored_after : list rid)
+| COneBatch (need_acc v : bool) (me : acct) (one : bool) (s : state) (ids : list rid) (ws : list raw) (ok : bool)
+            (one_after : bool) (s_after : state) (ids_after stored_after : list rid)
+| COneBuild (need_acc v : bool) (me owner w1 w2 : acct) (root : rid) (ws : list raw)
+            (live : option (bool * state * list rid)) (ok one_r : bool) (s_r : state) (ids_r : list rid).
 
 (* ---- specification of one AddRawRecords call over OBSERVED behaviour (never calls the machine of Model/Acl.v):
    storage and memory agree; the old log is a prefix of the new one; the new ids are ids of offered records, in the
@@ -91,6 +111,23 @@ Definition model_ok (c : case) : bool :=
       match add_raws false need_acc v me (mkList s ids []) ws with
       | (l', ok') => Bool.eqb ok ok' && obs_eqb (l_state l') s_after && list_N_eqb (l_ids l') ids_after
       end
+  | COne need_acc v me one s ids w res one_after s_after ids_after stored_after =>
+      match oadd_raw false false need_acc v me (mkOList one (mkList s ids [])) w with
+      | OAddOk l' => outcome_eqb res OAccepted && Bool.eqb (o_one l') one_after &&
+                     obs_eqb (l_state (o_list l')) s_after && list_N_eqb (l_ids (o_list l')) ids_after
+      | OAddDup => outcome_eqb res ODup && Bool.eqb one one_after && obs_eqb s s_after && list_N_eqb ids ids_after
+      | OAddRejected => outcome_eqb res ORejected && Bool.eqb one one_after && obs_eqb s s_after && list_N_eqb ids ids_after
+      end
+  | COneBatch need_acc v me one s ids ws ok one_after s_after ids_after stored_after =>
+      match oadd_raws false false need_acc v me (mkOList one (mkList s ids [])) ws with
+      | (l', ok') => Bool.eqb ok ok' && Bool.eqb (o_one l') one_after &&
+                     obs_eqb (l_state (o_list l')) s_after && list_N_eqb (l_ids (o_list l')) ids_after
+      end
+  | COneBuild need_acc v me owner w1 w2 root ws live ok one_r s_r ids_r =>
+      match obuild false need_acc v me true (init_one me owner w1 w2 root) root ws with
+      | Some l => ok && Bool.eqb (o_one l) one_r && obs_eqb (l_state (o_list l)) s_r && list_N_eqb (l_ids (o_list l)) ids_r
+      | None => negb ok
+      end
   end.
 
 Definition spec_ok (c : case) : bool :=
@@ -103,6 +140,17 @@ Definition spec_ok (c : case) : bool :=
   | CFold _ _ _ _ _ _ _ => true
   | CBatch need_acc v me s ids ws ok s_after ids_after stored_after =>
       spec_C03_batch need_acc s ids ws ok s_after ids_after stored_after
+  | COne need_acc v me one s ids w res one_after s_after ids_after stored_after =>
+      if one then spec_one_add s ids res one_after s_after ids_after stored_after
+      else negb one_after && spec_C03_add need_acc s ids w res s_after ids_after stored_after
+  | COneBatch need_acc v me one s ids ws ok one_after s_after ids_after stored_after =>
+      if one then spec_one_batch s ids ws ok one_after s_after ids_after stored_after
+      else negb one_after && spec_C03_batch need_acc s ids ws ok s_after ids_after stored_after
+  | COneBuild need_acc v me owner w1 w2 root ws live ok one_r s_r ids_r =>
+      match live with
+      | Some (one, s, ids) => spec_rebuild one s ids ok one_r s_r ids_r
+      | None => ok && one_r
+      end
   end.
 
 Fixpoint check_from (i : N) (l : list case) : list (N * N) :=
